@@ -437,7 +437,106 @@ def rule_ref(ctx: Ctx) -> RuleReport:
     if n_guess == 0 and not mappers:
         raise AnalysisError("C14-REF: the XLSX reader neither maps tabs through workbook.xml.rels nor builds sheet part names: image attribution not recognised")
     epub_href_clauses(ctx, rep, "C14-REF")
+    member_name_clauses(ctx, rep, "C14-REF")
     return rep
+
+
+_DECODERS = ("unquote", "unquote_plus", "unquote_to_bytes", "url2pathname")
+
+
+def member_name_clauses(ctx: Ctx, rep: RuleReport, rule: str) -> None:
+    """Which ZIP member a reference names. (a) OPC part names keep their percent escapes (ECMA-376-2, 10.2: the ZIP item name *is* the part
+    name without its leading slash): the Target attribute reaches the member lookup as written. (b) the accessors of ZipContext consult the
+    archive under one and the same name -- exists() must answer for the member read_bytes() / open_stream() would open. (c) strip() family
+    calls take a *set of characters*: a set that holds both '.' and a separator eats '../' prefixes and the dot of '.hidden'."""
+    # (a)
+    readers = []
+    for m in ctx.p.modules.values():
+        if "/tests/" in m.rel or not m.rel.startswith(X):
+            continue
+        for fi in m.functions.values():
+            reads = [c for c in walk_own(fi.node) if isinstance(c, ast.Call) and isinstance(c.func, ast.Attribute) and c.func.attr == "get" and c.args and isinstance(c.args[0], ast.Constant) and c.args[0].value == "Target"]
+            if reads:
+                readers.append((m, fi, reads))
+    if not readers:
+        raise AnalysisError(f"{rule}: no function reads the Target attribute of a Relationship (1 confirmed: parse_relationships)")
+    for m, fi, reads in readers:
+        rep.unit(fi.key)
+        derived = {a.targets[0].id for a in walk_own(fi.node) if isinstance(a, ast.Assign) and len(a.targets) == 1 and isinstance(a.targets[0], ast.Name) and any(x in reads for x in ast.walk(a.value))}
+        bad = None
+        for c in walk_own(fi.node):
+            if not isinstance(c, ast.Call) or c in reads:
+                continue
+            operands = list(c.args) + [k.value for k in c.keywords] + ([c.func.value] if isinstance(c.func, ast.Attribute) else [])
+            touches = any(x in reads or (isinstance(x, ast.Name) and x.id in derived) for o in operands for x in ast.walk(o))
+            if not touches:
+                continue
+            d = c.func.attr if isinstance(c.func, ast.Attribute) else (dotted(c.func) or "").split(".")[-1]
+            if d in _DECODERS or d in ("lower", "upper", "casefold", "title", "capitalize"):
+                bad = (c, d)
+                break
+        if bad:
+            rep.fail(Finding(rule, m.rel, fi.qual, f"relationship Target rewritten by {bad[1]}", f"`{short(bad[0], 60)}` rewrites the Target before the extractors look the part up: the ZIP item of part /word/media/company%20logo.png is called 'word/media/company%20logo.png' (the escape is part of the name), the rewritten name matches no member and the picture is silently missing from DOCX, PPTX and XLSX", line=bad[0].lineno))
+        else:
+            rep.ok({"opc_target": f"{fi.qual}: Target reaches the caller as written"})
+    # (b)
+    zc = next((c for c in ctx.p.all_classes() if c.name == "ZipContext"), None)
+    if zc is None:
+        raise AnalysisError(f"{rule}: class ZipContext not found")
+    archive_attrs = set()
+    init = zc.methods.get("__init__")
+    if init is not None:
+        for a in walk_own(init.node):
+            if isinstance(a, ast.Assign) and len(a.targets) == 1 and isinstance(a.targets[0], ast.Attribute) and isinstance(a.targets[0].value, ast.Name) and a.targets[0].value.id == "self":
+                archive_attrs.add(a.targets[0].attr)
+    consulted = {}
+    for name, mth in zc.methods.items():
+        params = [a.arg for a in mth.node.args.args[1:]]
+        if name.startswith("__") or len(params) != 1:
+            continue
+        par = params[0]
+        exprs = []
+        for e in walk_own(mth.node):
+            if isinstance(e, ast.Compare) and len(e.ops) == 1 and isinstance(e.ops[0], (ast.In, ast.NotIn)) and any(isinstance(x, ast.Attribute) and x.attr in archive_attrs for x in ast.walk(e.comparators[0])):
+                exprs.append(e.left)
+            elif isinstance(e, ast.Call) and any(isinstance(x, ast.Attribute) and isinstance(x.value, ast.Name) and x.value.id == "self" and x.attr in archive_attrs for x in ast.walk(e.func) if True) and e.args:
+                exprs.append(e.args[0])
+            elif isinstance(e, ast.Call) and any(isinstance(x, ast.Attribute) and isinstance(x.value, ast.Name) and x.value.id == "self" and x.attr in archive_attrs for a_ in e.args for x in ast.walk(a_)):
+                exprs.extend(a_ for a_ in e.args if any(isinstance(x, ast.Name) and x.id == par for x in ast.walk(a_)) and not any(isinstance(x, ast.Attribute) and x.attr in archive_attrs for x in ast.walk(a_)))
+        exprs = [e for e in exprs if any(isinstance(x, ast.Name) and x.id == par for x in ast.walk(e))]
+        if exprs:
+            consulted[name] = (mth, sorted({norm(e).replace(par, "<path>") for e in exprs}))
+    if len(consulted) < 4:
+        raise AnalysisError(f"{rule}: only {len(consulted)} ZipContext accessors that look a member up found (5 confirmed)")
+    forms = {}
+    for name, (mth, fs) in consulted.items():
+        for f_ in fs:
+            forms.setdefault(f_, []).append(name)
+    rep.unit(zc.module.rel + "::ZipContext")
+    if len(forms) == 1:
+        rep.ok({"zip_context_accessors": sorted(consulted), "member_name": next(iter(forms))})
+    else:
+        major = max(forms, key=lambda k: len(forms[k]))
+        for f_, names in sorted(forms.items()):
+            if f_ == major:
+                continue
+            mth = consulted[names[0]][0]
+            rep.fail(Finding(rule, zc.module.rel, mth.qual, f"member looked up as {f_} here, as {major} in the sibling accessors", f"{', '.join(sorted(names))} consult the archive under `{f_}`, {', '.join(sorted(forms[major]))} under `{major}`: exists() answers for another member than the readers open, so a reference is either skipped although the member is there or read from a member it does not name (wrong image bytes)", line=mth.node.lineno))
+    # (c)
+    n_strip = 0
+    for m in ctx.p.modules.values():
+        if "/tests/" in m.rel or not m.rel.startswith(X):
+            continue
+        for fi in m.functions.values():
+            for c in walk_own(fi.node):
+                if isinstance(c, ast.Call) and isinstance(c.func, ast.Attribute) and c.func.attr in ("lstrip", "rstrip", "strip") and len(c.args) == 1:
+                    v = ctx.folder.fold(fi.module, c.args[0]) if not isinstance(c.args[0], ast.Constant) else c.args[0].value
+                    if not isinstance(v, str):
+                        continue
+                    n_strip += 1
+                    if "." in v and ("/" in v or "\\" in v) and c.func.attr in ("lstrip", "strip"):
+                        rep.fail(Finding(rule, m.rel, fi.qual, f"{c.func.attr}({v!r}) removes a set of characters, not a prefix", f"`{short(c, 50)}` strips every leading '.' and separator: '../media/image1.png' loses its parent step and '.thumbs/a.png' its dot, so the reference is resolved to a member it does not name (missing or wrong image)", line=c.lineno))
+    rep.ok({"strip_calls_with_literal_sets": n_strip})
 
 
 def epub_href_clauses(ctx: Ctx, rep: RuleReport, rule: str) -> None:
